@@ -249,7 +249,11 @@ func (sw *SlidingWindow) Add(data any) {
 		switch {
 		case sw.initialized && sw.currentSlot != nil && sw.currentSlot.Contains(eventTime):
 			// watermark advanced past the window start but the window has not
-			// triggered yet; the row triggers normally, keep it.
+			// triggered yet; the row triggers normally, keep it. Overlapping windows
+			// that already fired and are still open get their late update as well.
+			if sw.config.AllowedLateness > 0 {
+				sw.handleLateData(eventTime, sw.config.AllowedLateness)
+			}
 		case sw.config.AllowedLateness > 0:
 			placed := false
 			for _, info := range sw.triggeredWindows {
